@@ -39,7 +39,7 @@ def plan(tier, seed):
 
 def run_shard(spec):
     return common.run_sessions(spec, PROP, make_monitors, cfg_fn, nsteps=(15, 35),
-                               weights=WEIGHTS, refusal_rate=0.4)
+                               weights=WEIGHTS, refusal_rate=0.4, history_share=0.25)
 
 
 def floors(tier):
